@@ -135,14 +135,22 @@ func c16Frame(r *rand.Rand, small bool) []byte {
 			b[i] = byte(1 + r.Intn(255))
 		}
 	}
-	// a zero right after a run of 254 non-zero bytes (the case dim13/cobs loses)
-	if n >= 255 && r.Intn(2) == 0 {
-		for i := 0; i < 254; i++ {
-			if b[i] == 0 {
-				b[i] = 7
+	// a zero right after a run of exactly 252, 253 or 254 non-zero bytes (block codes 0xfd, 0xfe, and the full block 0xff
+	// that dim13/cobs loses), from the start of the frame or right after a leading zero
+	if n >= 253 && r.Intn(2) == 0 {
+		run := 252 + r.Intn(3)
+		start := r.Intn(2)
+		if start+run < n {
+			if start == 1 {
+				b[0] = 0
 			}
+			for i := start; i < start+run; i++ {
+				if b[i] == 0 {
+					b[i] = 7
+				}
+			}
+			b[start+run] = 0
 		}
-		b[254] = 0
 	}
 	return b
 }
